@@ -558,7 +558,6 @@ func run(c Case, k *ev.Case) *ev.Failure {
 	// notifications: one disconnected per established connection that was lost, one reconnected per re-establishment,
 	// one resumed per successful resume of a stream
 	time.Sleep(3 * time.Millisecond)
-	evs := env.Events.Snapshot()
 	established, lost := 0, 0
 	for _, inc := range b.Incs() {
 		if inc.Connect != nil {
@@ -567,6 +566,11 @@ func run(c Case, k *ev.Case) *ev.Failure {
 				lost++
 			}
 		}
+	}
+	evs := env.Events.Snapshot()
+	// the handlers run asynchronously: give late ones (loaded machine) time before the counts are compared
+	for dl := time.Now().Add(3 * time.Second); (evs.Disconnected < lost || evs.Reconnected < established-1) && time.Now().Before(dl); time.Sleep(2 * time.Millisecond) {
+		evs = env.Events.Snapshot()
 	}
 	spurious := established - 1 - lost // connections the client gave up although the link was alive
 	if spurious < 0 {
